@@ -1,5 +1,5 @@
 (* C03 — tainting never leaves fewer than min_nodes schedulable nodes.  Theorems only. *)
-From Esc Require Import Examples proofs.ScanTaint.
+From Esc Require Import Examples proofs.ScanTaint proofs.ScanRun proofs.ScanRunTheorems.
 
 (* for every scan (node names of the view distinct): the nodes that receive the taint are distinct members of the
    view's untainted class; if any node is tainted, at least min_nodes untainted ones remain; and when the scan sees
@@ -33,3 +33,9 @@ Print Assumptions c03_autodiscover.
 (* non-vacuity: fast rate 2 but only one node above the minimum of 1 among the two untainted: exactly one taint *)
 Example c03_ex : taint_ok_targets (ex_ctx ex_opts gstate0 1000) (r_calls (ex_scan ex_opts gstate0 1000)) = [207].
 Proof. vm_compute. reflexivity. Qed.
+
+(* over a whole RunOnce: the checker evaluated by the correspondence holds of every group journal the model produces
+   (group names and cloud group names pairwise distinct) *)
+Theorem c03_run_once : forall s, wf_groups s -> wf_snapshot s = true -> for_groups check_C03_group s (run_journals s) = true.
+Proof. exact run_passes_C03. Qed.
+Print Assumptions c03_run_once.
